@@ -79,6 +79,9 @@ func (p *Parser) rune() rune {
 	}
 retry:
 	if p.bsp >= uint(len(p.bs)) && p.fill() == 0 {
+		// If the input ends right after an escaped newline,
+		// whatever fails to parse may be completed by the next line.
+		p.contAtEOF = p.r == escNewl
 		// Necessary for the last position to be correct.
 		// Note that the buffer may still hold the last bytes,
 		// such as when the reader returned them along with [io.EOF].
